@@ -13,7 +13,10 @@ CFG = dict(
          "(next payload of equal/smaller/larger size, new timestamp, reset, clear, or unchanged); every slice returned by Bytes() is kept "
          "WITHOUT copying and decoded only after the last step: it must still decode to the packet it was made from (C15:encoding-not-stable) "
          "and equal the model's (pure) encoding. "
-         "25 fixed regression inputs (the repaired defects, one send-queue history) run first. Non-trivial = a decoded packet whose accessors were all checked (acc), a "
+         "Expected timestamp counters never come from the code under test: the round-trip oracle uses the counter the harness put in, "
+         "structured raw datagrams carry the generator's own value of the 0x13/0x11 TLV it wrote (C15:decode-timestamp); counters have top-16 "
+         "bits set in about half the timestamped packets plus the 2^48 / 2^63 / 2^64-1 boundaries. "
+         "28 fixed regression inputs (the repaired defects, one send-queue history, three full-width counters) run first. Non-trivial = a decoded packet whose accessors were all checked (acc), a "
          "completed round trip (rt) or a datagram with valid fixed header rejected by a validation (rej); distinct by input line.",
     nontrivial=["acc", "rt", "rej"],
     lean_files=["C15", "ComposePackets"],
